@@ -229,6 +229,10 @@ class Dialect:
                 k = ('pre', past[0] // 2)
             cl = self.chain_mask(u, chain) & ~self.ops_mask
             ent[u] = [k, cl]
+        # (role, prefix operator) pairs the start state of that role does not open; only for roles with a
+        # pending frame — a statement / parenthesis context without a prefix operator is dropped instead.
+        # Whether the banned positions matter for the SQL grouping is decided in Lean (`preCompat`).
+        self.ban = set()
         # greatest fixpoint
         changed = True
         while changed:
@@ -278,9 +282,14 @@ class Dialect:
         cl &= m
         # prefix operators
         for o in self.pres:
+            if (k, o) in self.ban:
+                continue
             a = self.action(u, o)
             if not a or a[0] != 's' or a[1] not in ent or ent[a[1]][0] != ('pre', o):
-                return None
+                if k == ('top',):
+                    return None
+                self.ban.add((k, o))
+                continue
             cl &= ent[a[1]][1]
         # the state after the expression
         for o in self.ops:
@@ -409,6 +418,7 @@ def emit(D):
            '  parNo := %d' % D.par_no,
            '  chain := %s' % T.lean_list('(%d,%d)' % c for c in chain),
            '  opsMask := %s' % T.hexn(D.ops_mask),
+           '  preBan := %s' % T.lean_list('(%s,%d)' % (kind_term(k), o) for k, o in sorted(D.ban)),
            '  starts := %s' % starts,
            '/-- the expression-start states, for documentation: (state, symbols below it) -/',
            'def startDoc : List (Nat × String) := %s' % T.lean_list(
@@ -439,9 +449,11 @@ def main(gen_lean, gen_json):
         T.write_if_changed(os.path.join(gen_lean, 'ExprSim_%s.lean' % d), emit(D))
         side = dict(starts={str(u): dict(kind=list(e[0]), closers=[D.terms[i] for i in range(len(D.terms)) if e[1] >> i & 1],
                                          below=D.describe(u)) for u, e in D.ent.items()},
-                    chain=D.chain, excluded=D.excluded, bins=D.bins, pres=D.pres)
+                    chain=D.chain, excluded=D.excluded, bins=D.bins, pres=D.pres,
+                    pre_ban=[[list(k), o] for k, o in sorted(D.ban)])
         T.write_if_changed(os.path.join(gen_json, 'exprsim_%s.json' % d), json.dumps(side, sort_keys=True))
         info['exprsim_' + d] = dict(starts=len(D.ent), chain=D.chain, excluded=D.excluded,
+                                    pre_ban=[[list(k), D.terms[o]] for k, o in sorted(D.ban)],
                                     contexts=[n for n, _ in CONTEXT_PREFIX if D.context_state(dict(CONTEXT_PREFIX)[n]) in D.ent])
     return info
 
@@ -453,7 +465,7 @@ if __name__ == '__main__':
         ent = D.compute()
         print(d, 'chain', [(p, D.prods[p]['name'], D.prods[p]['rhs_names']) for p in D.chain], 'excluded', D.excluded)
         allstarts = [u for u in range(len(D.rows)) if D.goto(u, D.E) is not None]
-        print(' starts kept', len(ent), 'of', len(allstarts))
+        print(' starts kept', len(ent), 'of', len(allstarts), 'prefix bans', sorted(D.ban))
         for u in allstarts:
             if u not in ent:
                 print('  dropped', u, D.describe(u))
